@@ -73,7 +73,7 @@ func main() {
 		os.Exit(2)
 	}
 	seed, _ := strconv.ParseInt(os.Getenv("VERIF_SEED"), 10, 64)
-	cfg := &RunCfg{Workers: *workers, SolverBin: *solver, TimeoutMs: *timeout, Thorough: *thorough,
+	cfg := &RunCfg{Workers: *workers, SolverBin: *solver, TimeoutMs: *timeout, LiveTimeoutMs: 3000, Thorough: *thorough,
 		MaxPaths: *maxPaths, LoopBound: 12, MaxSteps: 2000000, MaxVisible: 400, Seed: seed, LogSMT: *logSMT}
 
 	var runs []*HarnessRun
